@@ -123,7 +123,24 @@ pub struct FnTr<'w> {
     pub last_inout: Vec<String>,
     /// translating the call of a call statement (where `&mut` struct arguments are allowed)
     pub in_call_stmt: bool,
+    /// `let x = if C { &mut a } else { &mut b };` (conditional mutable borrow of one of two struct locals): `x` is a copy that is
+    /// written back at the end of the block it is declared in
+    pub local_borrows: Vec<LocalBorrow>,
+    /// `let p = match E { P1 => x.m1_ref(), .., _ => panic!() };` (a place inside the struct local `x`, selected by a `match`)
+    pub place_aliases: Vec<PlaceAlias>,
+    /// set while the `match` of a place alias is translated: (receiver, its struct, the array field the place methods index)
+    pub place_value_of: Option<(String, String, Option<String>)>,
+    /// local closures `let f = |x| body;` (name, parameter, parameter type, body)
+    pub local_closures: Vec<(String, String, RTy, syn::Expr)>,
+    /// the struct literal being translated is the returned value: panicking field initialisers may be bound first (`pending`)
+    pub struct_lit_pending_ok: bool,
 }
+
+#[derive(Clone, Debug)]
+pub struct LocalBorrow { pub depth: usize, pub cond: String, pub var: String, pub then_var: String, pub else_var: String }
+
+#[derive(Clone, Debug)]
+pub struct PlaceAlias { pub depth: usize, pub rust: String, pub recv: String, pub field: String, pub index_var: String }
 
 pub const LEAN_KEYWORDS: &[&str] = &[
     "at", "from", "end", "fun", "show", "have", "then", "else", "if", "do", "let", "in", "with", "match", "by", "open",
@@ -191,7 +208,13 @@ impl<'w> FnTr<'w> {
     }
 
     pub fn push_scope(&mut self) -> usize { self.depth += 1; self.env.len() }
-    pub fn pop_scope(&mut self, mark: usize) { self.depth -= 1; self.env.truncate(mark); }
+    pub fn pop_scope(&mut self, mark: usize) {
+        self.depth -= 1;
+        self.env.truncate(mark);
+        let d = self.depth;
+        self.local_borrows.retain(|b| b.depth <= d);
+        self.place_aliases.retain(|b| b.depth <= d);
+    }
 
     pub fn fresh(&mut self, base: &str) -> String {
         loop {
@@ -268,7 +291,7 @@ impl<'w> FnTr<'w> {
         match t {
             RTy::Enum(n) => { if let Some(e) = self.world.enums.get(n) { self.deps.insert(e.module.clone()); } }
             RTy::Struct(n) => { if let Some(s) = self.world.structs.get(n) { if let Some(m) = &s.lean_module { self.deps.insert(m.clone()); } } }
-            RTy::Opt(t) | RTy::VecFn(t) | RTy::VecList(t) | RTy::Iter(t) | RTy::VecDeque(t) => self.note_ty_dep(t),
+            RTy::Opt(t) | RTy::VecFn(t) | RTy::VecList(t) | RTy::Iter(t) | RTy::VecDeque(t) | RTy::Range(t) => self.note_ty_dep(t),
             RTy::Res(t, e) | RTy::HashMap(t, e) => { self.note_ty_dep(t); self.note_ty_dep(e); }
             RTy::Tuple(ts) => for t in ts { self.note_ty_dep(t); },
             _ => {}
@@ -335,6 +358,13 @@ fn resolve_type_i(world: &World, ty: &syn::Type, self_struct: Option<&str>, subs
         syn::Type::Slice(s) => Ok(RTy::VecFn(Box::new(resolve_type_i(world, &s.elem, self_struct, subst)?))),
         // `[T; N]`: like a slice (the length is not tracked; indexing is translated bounds-checked in list mode)
         syn::Type::Array(a) => Ok(RTy::VecFn(Box::new(resolve_type_i(world, &a.elem, self_struct, subst)?))),
+        // `Self::Err` of a trait impl (table `targets::ASSOC_TYPES`)
+        syn::Type::Path(p) if p.qself.is_none() && p.path.segments.len() == 2 && p.path.segments[0].ident == "Self" && self_struct.is_some()
+            && crate::targets::ASSOC_TYPES.iter().any(|(s, n, _)| Some(*s) == self_struct && p.path.segments[1].ident == n) => {
+            let t = crate::targets::ASSOC_TYPES.iter().find(|(s, n, _)| Some(*s) == self_struct && p.path.segments[1].ident == n).unwrap().2;
+            let ty: syn::Type = syn::parse_str(t).map_err(|_| "bad associated type in the table".to_string())?;
+            resolve_type_i(world, &ty, self_struct, subst)
+        }
         syn::Type::Path(p) if p.qself.is_none() => {
             let seg = p.path.segments.last().ok_or("empty type path")?;
             let name = seg.ident.to_string();
@@ -383,6 +413,7 @@ fn resolve_type_i(world: &World, ty: &syn::Type, self_struct: Option<&str>, subs
                         "Option" => Ok(RTy::Opt(Box::new(inner))),
                         "Vec" => Ok(RTy::VecFn(Box::new(inner))),
                         "VecDeque" => Ok(RTy::VecDeque(Box::new(inner))),
+                        "Range" if matches!(inner, RTy::Int(_)) => Ok(RTy::Range(Box::new(inner))),
                         _ => Err(format!("unsupported generic type `{}`", name)),
                     }
                 }
